@@ -231,9 +231,9 @@ class Spec:
 
 
 def closure_status(spec, table):
-    """status of the Table D just loaded under the effective map (local over master): 'cyclic' if an entry of `table`
-    reaches a sequence that reaches itself, else 'unresolved' if it reaches a 3-descriptor defined nowhere, else 'clean';
-    None when a descriptor involved has several different definitions in one file"""
+    """status of the Table D just loaded: 'cyclic' if a member of one of its entries reaches (through the effective map:
+    local over master) a sequence that reaches itself, else 'unresolved' if one reaches a 3-descriptor defined nowhere,
+    else 'clean'; None when a descriptor involved has several different definitions in one file"""
     eff = dict(spec.mD); eff.update(spec.lD)
     state = {}          # desc -> 'clean' | 'unresolved' | 'cyclic'
     amb = [False]
@@ -264,12 +264,18 @@ def closure_status(spec, table):
         return res
 
     worst = "clean"
-    for d in table:
-        r = visit(d, frozenset())
-        if r == "cyclic":
-            worst = "cyclic"
-        elif r == "unresolved" and worst == "clean":
-            worst = "unresolved"
+    for d, defs in table.items():
+        # the entries of the table just loaded, as written in it (a local entry may hide it for lookups, the table is
+        # examined all the same); what they refer to is resolved through the effective map
+        if len(set(tuple(s) for s, _ in defs)) > 1 or any(fz for _, fz in defs):
+            amb[0] = True
+        for x in defs[0][0]:
+            if x is not None and ct.F(x) == 3:
+                r = visit(x, frozenset())
+                if r == "cyclic":
+                    worst = "cyclic"
+                elif r == "unresolved" and worst == "clean":
+                    worst = "unresolved"
     return None if amb[0] else worst
 
 
@@ -995,21 +1001,26 @@ def fresh_object_check(rep, ctx, files, batches, lib_res, feat, tier):
     if not cases:
         return 0
     res = run_library(ctx.exe, [hist_line(c[2], files) for c in cases])
-    nbad = 0
-    for (idx, i, hops), (toks, crash) in zip(cases, res):
+    mres = run_model(ctx.drv, files, [(ctx.flags, c[2]) for c in cases])
+    nrep = 0
+    for (idx, i, hops), (toks, crash), mt in zip(cases, res, mres):
         feat["fresh_object_comparisons"] += 1
-        got = batches[idx][1]
+        rep.count(("fresh", hist_line(hops), tuple(sorted((n, hash(files.f[n]["text"])) for n in set(hist_files(hops))))))
+        if crash:
+            toks = toks + ["CRASH"]
+        # the fresh run is itself a history: model, oracle
+        if nrep < 6 and classify(rep, ctx, files, hops, toks, crash, python_prediction(files, hops, mt, ctx.flags)):
+            nrep += 1
         a = lib_res[idx][0][i]
-        b = toks[-1] if toks and not crash else "CRASH"
+        b = toks[-1]
         if a != b:
-            # only a difference that the oracle also rejects on one side is a violation (duplicates within one file may
-            # legitimately resolve differently); those were reported by classify() already
             ops = batches[idx][1]
             fa = [f for f in oracle(files, ops, lib_res[idx][0] + (["CRASH"] if lib_res[idx][1] else [])) if f[0] == i]
             if not fa and not oracle(files, hops, toks):
+                # both answers are definitions the SAME file gives for the descriptor (defined twice in it)
                 feat["fresh_object_differences_within_duplicate_latitude"] += 1
             else:
-                feat["fresh_object_differences_rejected_by_oracle"] += 1
+                feat["fresh_object_differences_rejected_by_oracle"] += 1      # reported by classify() on the side that is wrong
     return len(cases)
 
 
